@@ -236,10 +236,18 @@ impl Acc {
                     });
                 }
             } else {
-                *self
-                    .out_of_scope
-                    .entry(format!("{}:{}", v.prop, v.key))
-                    .or_insert(0) += 1;
+                let name = format!("{}:{}", v.prop, v.key);
+                let n = self.out_of_scope.entry(name.clone()).or_insert(0);
+                *n += 1;
+                // Keep one witness per foreign class for triage (never reported as a verdict)
+                if *n == 1 && std::env::var("VERIF_KEEP_OOS").is_ok() {
+                    self.found.push(Found {
+                        key: format!("OOS:{}", name),
+                        detail: v.detail,
+                        scenario: scenario.clone(),
+                        index,
+                    });
+                }
             }
         }
     }
@@ -605,6 +613,13 @@ pub fn run_check(check: &dyn Check, tier: Tier) -> i32 {
     }
     let mut violation_summaries: Vec<J> = Vec::new();
     for (key, mut witnesses) in by_key {
+        if let Some(foreign) = key.strip_prefix("OOS:") {
+            witnesses.sort_by_key(|w| w.2);
+            let (detail, scenario, index) = witnesses.remove(0);
+            let path = write_replay(check, foreign, &detail, &scenario, seed, index);
+            lines.push(format!("note: out-of-scope divergence {} kept at {} :: {}", foreign, path.display(), first_line(&detail)));
+            continue;
+        }
         if known.iter().any(|k| k.property == check.id() && k.status == "known" && k.key == key) {
             continue;
         }
